@@ -1,27 +1,48 @@
-lib/Bytes.vo lib/Bytes.glob lib/Bytes.v.beautified lib/Bytes.required_vo: lib/Bytes.v 
-lib/Bytes.vio: lib/Bytes.v 
-lib/Bytes.vos lib/Bytes.vok lib/Bytes.required_vos: lib/Bytes.v 
-lib/Utf8.vo lib/Utf8.glob lib/Utf8.v.beautified lib/Utf8.required_vo: lib/Utf8.v lib/Bytes.vo
-lib/Utf8.vio: lib/Utf8.v lib/Bytes.vio
-lib/Utf8.vos lib/Utf8.vok lib/Utf8.required_vos: lib/Utf8.v lib/Bytes.vos
 gen/Facts_HTMLEscape.vo gen/Facts_HTMLEscape.glob gen/Facts_HTMLEscape.v.beautified gen/Facts_HTMLEscape.required_vo: gen/Facts_HTMLEscape.v 
 gen/Facts_HTMLEscape.vio: gen/Facts_HTMLEscape.v 
 gen/Facts_HTMLEscape.vos gen/Facts_HTMLEscape.vok gen/Facts_HTMLEscape.required_vos: gen/Facts_HTMLEscape.v 
 gen/Facts_escapers.vo gen/Facts_escapers.glob gen/Facts_escapers.v.beautified gen/Facts_escapers.required_vo: gen/Facts_escapers.v 
 gen/Facts_escapers.vio: gen/Facts_escapers.v 
 gen/Facts_escapers.vos gen/Facts_escapers.vok gen/Facts_escapers.required_vos: gen/Facts_escapers.v 
+gen/Facts_paths.vo gen/Facts_paths.glob gen/Facts_paths.v.beautified gen/Facts_paths.required_vo: gen/Facts_paths.v 
+gen/Facts_paths.vio: gen/Facts_paths.v 
+gen/Facts_paths.vos gen/Facts_paths.vok gen/Facts_paths.required_vos: gen/Facts_paths.v 
+lib/Bytes.vo lib/Bytes.glob lib/Bytes.v.beautified lib/Bytes.required_vo: lib/Bytes.v 
+lib/Bytes.vio: lib/Bytes.v 
+lib/Bytes.vos lib/Bytes.vok lib/Bytes.required_vos: lib/Bytes.v 
+lib/Utf8.vo lib/Utf8.glob lib/Utf8.v.beautified lib/Utf8.required_vo: lib/Utf8.v lib/Bytes.vo
+lib/Utf8.vio: lib/Utf8.v lib/Bytes.vio
+lib/Utf8.vos lib/Utf8.vok lib/Utf8.required_vos: lib/Utf8.v lib/Bytes.vos
+model/ExpandM.vo model/ExpandM.glob model/ExpandM.v.beautified model/ExpandM.required_vo: model/ExpandM.v lib/Bytes.vo model/PathsM.vo gen/Facts_paths.vo
+model/ExpandM.vio: model/ExpandM.v lib/Bytes.vio model/PathsM.vio gen/Facts_paths.vio
+model/ExpandM.vos model/ExpandM.vok model/ExpandM.required_vos: model/ExpandM.v lib/Bytes.vos model/PathsM.vos gen/Facts_paths.vos
 model/HTMLEscapeM.vo model/HTMLEscapeM.glob model/HTMLEscapeM.v.beautified model/HTMLEscapeM.required_vo: model/HTMLEscapeM.v lib/Bytes.vo gen/Facts_HTMLEscape.vo
 model/HTMLEscapeM.vio: model/HTMLEscapeM.v lib/Bytes.vio gen/Facts_HTMLEscape.vio
 model/HTMLEscapeM.vos model/HTMLEscapeM.vok model/HTMLEscapeM.required_vos: model/HTMLEscapeM.v lib/Bytes.vos gen/Facts_HTMLEscape.vos
 model/HtmlDecode.vo model/HtmlDecode.glob model/HtmlDecode.v.beautified model/HtmlDecode.required_vo: model/HtmlDecode.v lib/Bytes.vo lib/Utf8.vo
 model/HtmlDecode.vio: model/HtmlDecode.v lib/Bytes.vio lib/Utf8.vio
 model/HtmlDecode.vos model/HtmlDecode.vok model/HtmlDecode.required_vos: model/HtmlDecode.v lib/Bytes.vos lib/Utf8.vos
+model/PathSpec.vo model/PathSpec.glob model/PathSpec.v.beautified model/PathSpec.required_vo: model/PathSpec.v lib/Bytes.vo model/PathsM.vo
+model/PathSpec.vio: model/PathSpec.v lib/Bytes.vio model/PathsM.vio
+model/PathSpec.vos model/PathSpec.vok model/PathSpec.required_vos: model/PathSpec.v lib/Bytes.vos model/PathsM.vos
+model/PathsM.vo model/PathsM.glob model/PathsM.v.beautified model/PathsM.required_vo: model/PathsM.v lib/Bytes.vo
+model/PathsM.vio: model/PathsM.v lib/Bytes.vio
+model/PathsM.vos model/PathsM.vok model/PathsM.required_vos: model/PathsM.v lib/Bytes.vos
+proofs/Expand_proofs.vo proofs/Expand_proofs.glob proofs/Expand_proofs.v.beautified proofs/Expand_proofs.required_vo: proofs/Expand_proofs.v lib/Bytes.vo model/PathsM.vo model/PathSpec.vo model/ExpandM.vo proofs/Paths_proofs.vo
+proofs/Expand_proofs.vio: proofs/Expand_proofs.v lib/Bytes.vio model/PathsM.vio model/PathSpec.vio model/ExpandM.vio proofs/Paths_proofs.vio
+proofs/Expand_proofs.vos proofs/Expand_proofs.vok proofs/Expand_proofs.required_vos: proofs/Expand_proofs.v lib/Bytes.vos model/PathsM.vos model/PathSpec.vos model/ExpandM.vos proofs/Paths_proofs.vos
 proofs/HTMLEscape_proofs.vo proofs/HTMLEscape_proofs.glob proofs/HTMLEscape_proofs.v.beautified proofs/HTMLEscape_proofs.required_vo: proofs/HTMLEscape_proofs.v lib/Bytes.vo gen/Facts_HTMLEscape.vo model/HTMLEscapeM.vo lib/Utf8.vo model/HtmlDecode.vo proofs/HtmlDecode_proofs.vo
 proofs/HTMLEscape_proofs.vio: proofs/HTMLEscape_proofs.v lib/Bytes.vio gen/Facts_HTMLEscape.vio model/HTMLEscapeM.vio lib/Utf8.vio model/HtmlDecode.vio proofs/HtmlDecode_proofs.vio
 proofs/HTMLEscape_proofs.vos proofs/HTMLEscape_proofs.vok proofs/HTMLEscape_proofs.required_vos: proofs/HTMLEscape_proofs.v lib/Bytes.vos gen/Facts_HTMLEscape.vos model/HTMLEscapeM.vos lib/Utf8.vos model/HtmlDecode.vos proofs/HtmlDecode_proofs.vos
 proofs/HtmlDecode_proofs.vo proofs/HtmlDecode_proofs.glob proofs/HtmlDecode_proofs.v.beautified proofs/HtmlDecode_proofs.required_vo: proofs/HtmlDecode_proofs.v lib/Bytes.vo lib/Utf8.vo model/HtmlDecode.vo
 proofs/HtmlDecode_proofs.vio: proofs/HtmlDecode_proofs.v lib/Bytes.vio lib/Utf8.vio model/HtmlDecode.vio
 proofs/HtmlDecode_proofs.vos proofs/HtmlDecode_proofs.vok proofs/HtmlDecode_proofs.required_vos: proofs/HtmlDecode_proofs.v lib/Bytes.vos lib/Utf8.vos model/HtmlDecode.vos
+proofs/Paths_proofs.vo proofs/Paths_proofs.glob proofs/Paths_proofs.v.beautified proofs/Paths_proofs.required_vo: proofs/Paths_proofs.v lib/Bytes.vo model/PathsM.vo model/PathSpec.vo
+proofs/Paths_proofs.vio: proofs/Paths_proofs.v lib/Bytes.vio model/PathsM.vio model/PathSpec.vio
+proofs/Paths_proofs.vos proofs/Paths_proofs.vok proofs/Paths_proofs.required_vos: proofs/Paths_proofs.v lib/Bytes.vos model/PathsM.vos model/PathSpec.vos
+props/C18.vo props/C18.glob props/C18.v.beautified props/C18.required_vo: props/C18.v lib/Bytes.vo model/PathsM.vo model/PathSpec.vo model/ExpandM.vo proofs/Paths_proofs.vo proofs/Expand_proofs.vo
+props/C18.vio: props/C18.v lib/Bytes.vio model/PathsM.vio model/PathSpec.vio model/ExpandM.vio proofs/Paths_proofs.vio proofs/Expand_proofs.vio
+props/C18.vos props/C18.vok props/C18.required_vos: props/C18.v lib/Bytes.vos model/PathsM.vos model/PathSpec.vos model/ExpandM.vos proofs/Paths_proofs.vos proofs/Expand_proofs.vos
 props/C24.vo props/C24.glob props/C24.v.beautified props/C24.required_vo: props/C24.v lib/Bytes.vo gen/Facts_HTMLEscape.vo model/HTMLEscapeM.vo model/HtmlDecode.vo proofs/HTMLEscape_proofs.vo
 props/C24.vio: props/C24.v lib/Bytes.vio gen/Facts_HTMLEscape.vio model/HTMLEscapeM.vio model/HtmlDecode.vio proofs/HTMLEscape_proofs.vio
 props/C24.vos props/C24.vok props/C24.required_vos: props/C24.v lib/Bytes.vos gen/Facts_HTMLEscape.vos model/HTMLEscapeM.vos model/HtmlDecode.vos proofs/HTMLEscape_proofs.vos
